@@ -60,7 +60,11 @@ extern "C" void harness_clear_vs_fresh() {
 
 // C04.e: tree execution carries the same closed paths as paths execution, for both option flags
 extern "C" void harness_tree_vs_paths() {
+#ifdef FLAGS
+  bool rev = (FLAGS & 1) != 0, pres = (FLAGS & 2) != 0;    // one obligation per flag combination (the flags steer the clean-up code)
+#else
   bool rev = nondet_bool(), pres = nondet_bool();
+#endif
   Paths64 outer(1), hole(1);
   outer[0].push_back(P(0, 0)); outer[0].push_back(P(100, 0)); outer[0].push_back(P(100, 100)); outer[0].push_back(P(0, 100));
   hole[0].push_back(P(20, 20)); hole[0].push_back(P(70, 25)); hole[0].push_back(P(40, 80));
